@@ -1,6 +1,6 @@
 SPECIFICATION Spec
 CONSTANTS
   Vmodel = 5
-  MaxSeq = 3
+  MaxSeq = 4
 INVARIANTS Lemma Export
 CHECK_DEADLOCK FALSE
